@@ -71,14 +71,16 @@ class TeeCase(FnCase):
             hc = next((d.get('on_completed') for (o, d) in subs if o is srcs[self.branch]), None)
             if not isinstance(hc, Partial) or not isinstance(hc.fn, Closure):
                 raise Unsupported('tee_map (mux): the stream completion of a branch is not handled by a per-branch closure')
-            cid = hc.fn.scope.lookup('is_done')
-            if cid is None or cid not in q.cells:
-                raise Unsupported('tee_map (mux): cannot find the per-branch completion flags')
-            self.done = q.cells[cid]
-            self.d0 = [z3.Bool(f'done0_{t_}') for t_ in range(self.n)]
-            q.heap[self.done.oid] = ('list', tuple(SBool(x) for x in self.d0))
+            # the stream completes when ALL branches have completed, whatever the order: here the other branches complete first (in index
+            # order, from the state the real subscription left), then branch b.  Nothing may be emitted before the last one.
             q.trace = Const('trace0', Trace); q.calls = []; q.pc = []
             self.trace0 = q.trace
+            for bi, (o, d) in enumerate(subs[:-1]):
+                if bi == self.branch: continue
+                res2 = eng.call(q, d.get('on_completed'), [], {})
+                assert len(res2) == 1
+                q = res2[0][0]
+            self.trace_before_last = q.trace
             self.path = q
             return hc, [], {}
         fn = handler.fn if isinstance(handler, Partial) else handler
@@ -121,11 +123,8 @@ class TeeCase(FnCase):
     def ensures(self, q, ret):
         n, b = self.n, self.branch
         if self.case == 'StreamCompleted':
-            eng = self.eng
-            dv = [eng.as_z3_bool(eng.truth(q, v)) for v in q.heap[self.done.oid][1]]
-            alld = And(*[(BoolVal(True) if t_ == b else self.d0[t_]) for t_ in range(n)])
-            return [('completes_when_all_branches_done', q.trace == If(alld, Concat(self.trace0, Unit(em(OUT, Ev.Done))), self.trace0)),
-                    ('done_flags', And(*[dv[t_] == (BoolVal(True) if t_ == b else self.d0[t_]) for t_ in range(n)]))]
+            return [('nothing_completed_before_the_last_branch', self.trace_before_last == self.trace0),
+                    ('completes_when_all_branches_done', q.trace == Concat(self.trace0, Unit(em(OUT, Ev.Done))))]
         k0 = Key.h(K_); base = k0 * n
         cq, ch = q.heap[self.queue.oid], q.heap[self.has.oid]
         i = Int('ei')
@@ -223,6 +222,11 @@ class TeeWiring(FnCase):
         return [('source_published_exactly_once', BoolVal(published_once(conn))),
                 ('every_branch_gets_the_same_connectable', BoolVal(len(srcs_l) == 2 and all(s is conn for s in srcs_l))),
                 ('join_mode_decoded', BoolVal((zf, cf) == want))]
+
+
+def unit_mux_connectable(opts):
+    from .wrappers import ConnectDelegates
+    return run_cases('mux.connectable', [ConnectDelegates()], opts)
 
 
 def unit_tee_wiring(opts):
